@@ -12,10 +12,8 @@ CHECKS = {
  "C01": ("order laws (reflexive, sign-antisymmetric, transitive, congruent, build metadata ignored) asserted on the real compare over symbolic "
          "versions: struct-level templates with full-width symbolic numbers for the SemVer-shaped systems plus a coverage lemma over all byte "
          "strings, template strings through the real parser for Maven, PyPI and RubyGems", "§7 C01, §11"),
- "C02": ("differential against transcriptions of SemVer 2.0 §11 / NuGet SemVer2 (npm, Cargo, Go, NuGet) and packaging's _cmpkey (PyPI) over "
-         "template fields; Maven and RubyGems orderings are not decided (no transcription built)", "§7 C02, §11"),
- "C03": ("differential against transcriptions of node-semver 7 (desugaring of every comparator to primitive bounds + prerelease admission rule), PEP 440 specifier "
-         "clauses on final releases and Maven VersionRange over structured requirement templates; Cargo VersionReq is not decided", "§7 C03, §11"),
+ "C02": ("differential against transcriptions of SemVer 2.0 §11 / NuGet SemVer2 (npm, Cargo, Go, NuGet; incl. ten-digit numeric identifiers), packaging's _cmpkey (PyPI) and Maven's ComparableVersion (3.6-3.8.6 algorithm on the version text, counterexamples adjudicated with the maven-artifact 3.8.7 jar; '.'-joined qualifiers, which the two Maven releases order differently, are left out); RubyGems ordering is not decided (no transcription built)", "§7 C02, §11"),
+ "C03": ("differential against transcriptions of node-semver 7 (desugaring of every comparator to primitive bounds + prerelease admission rule), the semver crate's VersionReq for Cargo (comma lists, default caret, partial versions, wildcards) through the same desugaring, PEP 440 specifier clauses on final releases and Maven VersionRange over structured requirement templates", "§7 C03, §11"),
  "C04": ("every implicit panic check and loop bound on every feasible path of the text entry points of util/semver (9 systems), util/pypi, the PyPI marker parser, util/resolve/schema (ParseResolve, New), the deptest/versiontest attribute parsers, resolve.MavenDepTypeToDependency and util/maven (profile activation, project keys, MergeParent+Interpolate+ProcessDependencies on a project with arbitrary-byte fields); inputs = all byte strings up to the stated lengths (grammar-alphabet bytes for the longer schema texts and row templates). Entry points built on net/mail, archive/*, encoding/xml and regexp are outside", "§7 C04, §11"),
  "C05": ("sequential clauses for all three resolvers (whole Resolve executed symbolically on skeleton universes of both generations): the client reports the same requirements and versions in the same order after Resolve; asking again, resolving another root in between on the same resolver and inserting the versions in the opposite order give the same graph, and the other root's graph equals a fresh resolver's. Concurrency clause decided sequentially as a lockset discipline on every path of one Resolve call (state that existed before the call is written only under an exclusive lock or through sync/atomic, and read under a lock where it is written), counterexamples replayed as 8 concurrent calls under the race detector; goroutine interleavings themselves are not explored (the engine has no scheduler)", "§7 C05, §11"),
  "C06": ("graph clauses (edge satisfies requirement, every non-dev non-peer requirement resolved or reported, reachability, fresh-install choice "
@@ -33,7 +31,7 @@ CHECKS = {
  "C14": ("the real LocalClient against a map-based reference over AddVersion histories of up to 3 (thorough 4) steps with a symbolic tag (none, latest, other) and requirement types, incl. an unparsable npm version: lookups, listings in exact npm order, requirements, matching, mentioned packages, not-found", "§7 C14, §11"),
  "C15": ("partial: interpolation terminates, leaves and reports unresolved placeholders (symbolic dictionaries incl. cycles; arbitrary bytes); precedence lemmas (child over parent, explicit over un-prefixed built-ins, prefixed built-ins over explicit properties, dependencyManagement imports depth-first in declaration order with first declaration winning). Equality with Maven's model builder is not decided", "§7 C15, §11"),
  "C16": ("ParseDependency and CanonPackageName against the decomposition known by construction of PEP 508 strings; marker parser+evaluator against a transcription of packaging's rule (variable x operator x literal incl. v-prefixed versions, literal or extra on either side, and/or/parentheses)", "§7 C16, §11"),
- "C18": ("partial, sequential: alias split (npm:name@range) in flattenNPMDeps, several dependencies across the four sections plus bundleDependencies each keeping its own name, range, section and alias, and the bundle mapping of npmRequirements over symbolic names and bundle trees (depth <= 3, bundles installed under an alias); the gRPC round trip and the goroutine-interleaving clauses are not decided", "§7 C18, §11"),
+ "C18": ("partial, sequential: alias split (npm:name@range) in flattenNPMDeps, several dependencies across the four sections plus bundleDependencies each keeping its own name, range, section and alias, the bundle mapping of npmRequirements over symbolic names and bundle trees (depth <= 3, bundles installed under an alias), and end to end the npm resolver over the API-backed client (an in-process stand-in implementing the generated InsightsClient interface) against the in-memory client on skeleton universes; gRPC transport and goroutine interleavings are not decided", "§7 C18, §11"),
  "C19": ("order laws and equality characterisation of attr.Set.Compare, clone independence, versiontest text round trip (incl. values that spell attribute key names)", "§7 C19, §11"),
 }
 
